@@ -3,6 +3,7 @@
 -/
 import EpsModel.Iter
 import EpsModel.Lemmas.Basic
+import EpsModel.Lemmas.Vecify
 namespace Eps.C16
 open Eps
 
@@ -119,6 +120,20 @@ end
     structure holding vectors. -/
 theorem typeHash_vecify (H : B → Nat) (T : Ty) : T.vecify.typeHash H = T.typeHash H := by
   unfold Ty.typeHash; rw [Ty.typeFeed_vecify]
+
+/-- The alignment hash likewise. -/
+theorem alignHash_vecify (H : B → Nat) (T : Ty) : T.vecify.alignHash H = T.alignHash H := by
+  unfold Ty.alignHash; rw [Eps.Ty.alignFeed_vecify]
+
+/-- **Bytes through arbitrary nesting**: at any stream position, a value is written at a type holding
+    slice references / iterator wrappers anywhere — under vectors, options, arrays, in fields of
+    derived structures and enums, at any depth — exactly as at the type holding vectors. -/
+theorem enc_vecify (T : Ty) (v : Val) (pos : Nat) : T.vecify.enc v pos = T.enc v pos :=
+  Eps.Ty.enc_vecify T v pos
+
+/-- **The whole stream**, header included: same hash words, same name, same bytes. -/
+theorem ser_vecify (H : B → Nat) (T : Ty) (name : B) (v : Val) : T.vecify.ser H name v = T.ser H name v := by
+  simp only [Ty.ser, Ty.header, typeHash_vecify, alignHash_vecify, Eps.Ty.enc_vecify]
 
 /-- Non-vacuity: the wrapper `Wrap<&[u32]>` becomes `Wrap<Vec<u32>>`. -/
 example :
